@@ -368,6 +368,7 @@ def run_scenario(sc, do_validate=True):
                 res["unknown"].append({"label": ob.label, "what": "obligation"})
                 continue
             # sat: ask again with a separation margin for eq obligations
+            r2 = None
             if ob.kind == "eq":
                 diff = it - ot
                 absd = z3.If(diff >= 0, diff, -diff)
@@ -383,6 +384,17 @@ def run_scenario(sc, do_validate=True):
             vkey = (ob.label,)
             if vkey in seen_viol:
                 continue
+            # prefer a generic witness (inputs in [1/2, 8], pairwise apart): uninterpreted flows and
+            # degenerate values (0, equal points) otherwise make the float replay uninformative
+            bad = z3.Not(claim) if ob.kind != "eq" else (absd > mq * (1 + abso) if r2 == "sat" else it != ot)
+            ins = [v.t for v in ctx.inputs.values() if isinstance(v, SymReal)]
+            rng = [z3.And(v >= z3.RealVal("1/2"), v <= 8) for v in ins]
+            apart = [z3.Or(a - b >= z3.RealVal("1/8"), b - a >= z3.RealVal("1/8")) for i, a in enumerate(ins) for b in ins[i + 1:]]
+            for hints in (rng + apart, rng):
+                rh, mh = eng.check_valid(path, z3.Not(bad), extra=hints)
+                if rh == "sat":
+                    model = mh
+                    break
             wit = witness_of(model, ctx.inputs)
             choices = list(ctx.choices_made)
             cctx, err = run_concrete(sc, wit, choices)
@@ -412,7 +424,7 @@ def run_scenario(sc, do_validate=True):
             seen_viol.add(vkey)
             res["violations"].append(v)
         # -- validation of the lifting layer on this path
-        if do_validate and sc.validate:
+        if do_validate and sc.validate and not any(S.term_has_uf(c) for c in path.pc):
             model = eng.path_model(path)
             if model is not None:
                 wit = witness_of(model, ctx.inputs)
